@@ -29,7 +29,7 @@ structure ImportBridge (i : Inst) (m : Mounts) (e : Expanded) : Prop where
   /-- ProbeMounts shows a mount on the mountpoint iff the kernel table has one -/
   mounted : (getMount m e.mount).isSome = (topAt i.mnts e.mount).isSome
   /-- `MountSourceIsExpected` answers what the documented comparison answers (this is where
-      the finding mount-source-behind-nonroot-mount is excluded) -/
+      the finding nonbind-import-fstype-not-compared is excluded) -/
   expected : ∀ mnt km, getMount m e.mount = some mnt → topAt i.mnts e.mount = some km →
     mountSourceIsExpected m mnt e.source = .ok (importAsConfigured i km e.fstype e.source)
 
